@@ -8,12 +8,18 @@ CFG = cfg('C06', refine=['Refine_keyprotect'], extract='Ex_C06', driver='c06',
                'exported secret part octet for octet from the observed (IV, salt) draws, the model reads bytes(key) back as an independent RFC 4880 '
                '5.5.3 reader and must recover the original integers; foreign forms WRITTEN by the model (usage 254/255 x simple/salted/iterated, '
                'on every key incl. DSA; GNU dummy / smartcard stub incl. the empty serial; protected primary with unprotected subkeys, which must '
-               'unlock, work and keep the subkey secrets over every scope exit) must be read by PGPy; octet search of every secret MPI >= 16 octets in '
+               'unlock, work and keep the subkey secrets over every scope exit) must be read by PGPy; legacy usage octet keys (usage = cipher id AES128 / CAST5 / AES256, MD5 simple S2K, 16-bit checksum) '
+               'written by the model AND compared with an RFC 4880 5.5.3 encoder written in the harness: loaded locked, exported identically, wrong '
+               'passphrase refused, unlocked, used, re-protected; components protected differently (protected primary + unprotected subkeys, '
+               'unprotected primary + protected subkeys, GNU-dummy primary + protected subkeys): protect while a component is locked only warns, '
+               'unlock enters whenever a component is protected and locks exactly those components again, stubs are passed over; octet search of every secret MPI >= 16 octets in '
                'protected exports; object-graph walk for secret integers after every scope exit. distinct = distinct (suite, key, configuration / op list)',
           trusted=['Spec/Rfc4880_keyprotect.v (RFC 4880 5.5.3 / 3.7.1 / 3.2 transcription)',
                    'primitive oracle: cryptography (CFB of every cipher) and hashlib (SHA-1, S2K hashes) called directly by the harness; '
                    'RFC 4880 3.7.1 S2K re-implemented in tools/harness/c06.py'],
           assumptions=['cfb_dec k iv (cfb_enc k iv x) = x and length (sha1 x) = 20 (premises of the round-trip theorems, Section variables)',
+                       'idealised acceptance gate (premise of C06_protect_never_encrypts_a_locked_component only): two passphrases the gate lets '
+                       'through give the same integers -- under the 16-bit checksum about one wrong passphrase in 65536 is accepted by the code',
                        'public MPIs of a key are non-zero (PrivKeyV4.unlocked tests every MPI; the model tests the private ones)',
                        'CPython heap residue of freed integers / bytearrays is NOT modelled (partial): reachable object graph is checked instead',
                        'source text of PrivKey.encrypt_keyblob / decrypt_keyblob / clear, PGPKey.unlock / protect / add_subkey, PrivKeyV4.unlocked, '
@@ -27,6 +33,9 @@ TEXT = ('Rocq theorems (Props/C06.v, closed under the global context; primitives
         'protected packet is Locked with zero secrets (invariant by induction), every scope exit (normal, exception, failed enter half-way through '
         'the subkeys) clears the PROTECTED key material and only that (a subkey attached inside the scope keeps its secret; key material that is '
         'not protected is untouched by any history without protect), a refused protect leaves state and all later observations unchanged, '
+        'protect only warns while ANY component is locked and -- after any history, under an idealised gate -- every protected component\'s '
+        'ciphertext decrypts to its original secret integers (protect never encrypts a locked component), an unlock scope on a key whose components '
+        'are protected differently leaves the key exactly as it was, the legacy usage-octet form round-trips (emit / parse / decrypt), '
         'a locked key refuses sign/decrypt, a wrong passphrase leaves the key as it was, the right one restores the integers (also under '
         'unprotected subkeys), GNU stubs (empty serial included) are read back as written, '
         'and every protected export is the value of a symbolic term with no secret outside the CFB plaintext. Tie: extracted model vs PGPy on '
